@@ -97,15 +97,23 @@ class Run:
         return sum(1 for i in self.instances if i['rule'] == rule or i['rule'].startswith(rule + '.'))
 
     def floor(self, rule, n, what=''):
-        """Fail the run (analysis error) if the rule matched fewer instances than confirmed by hand."""
+        """`n` instances of the rule were confirmed by hand on the reference tree.  The run fails (analysis error) when the rule
+        could not read a site (an UNDECIDED site of this rule exists and the count is short) or when it matched fewer than half
+        of them (a rule that matches nothing passes vacuously forever).  A smaller shortfall without any unread site - two
+        sites merged into one by a refactoring - is recorded in the evidence and does not fail the run."""
         found = self.count(rule)
         self.floors[rule] = (found, n)
-        if found < n and not self._new_findings():
-            und = [u for u in self.undecided_sites if u['rule'].startswith(rule)]
+        if found >= n or self._new_findings():
+            return
+        und = [u for u in self.undecided_sites if u['rule'].startswith(rule)]
+        hard = max(1, (n + 1) // 2)
+        if und or found < hard:
             raise AnalysisError('rule %s matched %d instance(s), floor is %d%s%s' % (
                 rule, found, n, (' (%s)' % what) if what else '',
                 ('; undecided sites: ' + '; '.join('%s %s: %s' % (u['function'], u['construct'][:60], u['reason'])
                                                    for u in und[:4])) if und else ''))
+        self.notes.append('rule %s matched %d instance(s), %d were confirmed by hand on the reference tree; no site was left unread, '
+                          'so sites were merged or removed by a restructuring' % (rule, found, n))
 
     def _is_known(self, fd, known=None):
         for k in (known if known is not None else self._known()):
